@@ -7,6 +7,13 @@
    (same value, same panic class, or OOB <-> 9).
    CRawSet: set_bit with any offset (inside, in the unused bits of the last word, beyond the words) on a copy,
    then BitVector::from of the copy and its iterators: the model keeps the state after a refused call.
+   CHistR / CHistI: a whole history of safe RawVector resp. IntVector calls (only the calls that returned; a refused
+   call ran on a copy that was dropped), the final length and backing words, BitVector::from of the final raw vector
+   (for an IntVector: of RawVector::from of it) and calls on that bitvector.
+   spec side: the observed (length, words) satisfy the representation invariant - ceil(len / 64) words, no bit set at
+   or beyond len - which is what the unchecked scans rely on, and no call ends in the hook;
+   model side: the history replayed on the models (Model/Hist.v) returns, ends in exactly that length and those
+   words, and every call on the bitvector ends like the model's.
    Memory-mapped views (CMapped / CMGet): real files made of library-serialized values are mapped and every view
    type is requested at every offset; for a view `new` returned the harness records map_offset, map_len, the claimed
    data length, whether the claimed range lies inside the mapping, and the outcome of touching its first and last
@@ -21,6 +28,8 @@ Require Import SDS.Model.Mach SDS.Model.Bits SDS.Model.Raw SDS.Model.IntVec SDS.
 Require Export SDS.Model.Mapped.   (* the case files name the view types *)
 Require Import SDS.Model.MappedGet.
 Require Import SDS.Check.Common.
+(* operation histories: only qualified names are used (rop / iop share constructor names with rcall / icall below) *)
+Require SDS.Spec.SeqSpec SDS.Model.Hist.
 Import ListNotations.
 Open Scope N_scope.
 
@@ -87,6 +96,12 @@ Inductive case :=
 (* RawVector (len, words): set_bit(i, v) on a copy with outcome o, then BitVector::from of that same copy (unchanged
    when the call panicked) and iterator calls on it *)
 | CRawSet (path : N) (dbg : bool) (len : N) (words : list N) (i : N) (v : bool) (o : ires unit) (calls : list bcall)
+(* RawVector::new() followed by the safe calls ops (each of them returned): final len() and backing words, then
+   BitVector::from of that vector and calls on it *)
+| CHistR (path : N) (dbg : bool) (ops : list SDS.Spec.SeqSpec.rop) (olen : N) (owords : list N) (calls : list bcall)
+(* IntVector::new(w0) followed by the safe calls ops (each of them returned), RawVector::from of the result: its
+   len() and backing words, then BitVector::from of it and calls on it *)
+| CHistI (path : N) (dbg : bool) (w0 : N) (ops : list SDS.Spec.SeqSpec.iop) (olen : N) (owords : list N) (calls : list bcall)
 (* one mapped file, one view type, every requested offset *)
 | CMapped (dbg : bool) (file : list N) (ty : vtype) (views : list (N * mobs))
 (* every IntVectorMapper (opt: inside a MappedOption) that `new` returned on the file: offset, len(), width(), and
@@ -94,6 +109,30 @@ Inductive case :=
 | CMGet (dbg : bool) (file : list N) (opt : bool) (probes : list (N * N * N * list (N * ires unit)))
 (* the batch's process died: status = signal number, or 1000 + exit code, or 2000 = result file incomplete *)
 | CDied (kind : N) (status : N).
+
+(* the history operations under short names for the case files *)
+Definition HWithLen := SDS.Spec.SeqSpec.RWithLen.
+Definition HResize := SDS.Spec.SeqSpec.RResize.
+Definition HClear := SDS.Spec.SeqSpec.RClear.
+Definition HReserve := SDS.Spec.SeqSpec.RReserve.
+Definition HCompl := SDS.Spec.SeqSpec.RComplement.
+Definition HPushBit := SDS.Spec.SeqSpec.RPushBit.
+Definition HPopBit := SDS.Spec.SeqSpec.RPopBit.
+Definition HSetBit := SDS.Spec.SeqSpec.RSetBit.
+Definition HBit := SDS.Spec.SeqSpec.RBit.
+Definition HCount := SDS.Spec.SeqSpec.RCountOnes.
+Definition JWithLen := SDS.Spec.SeqSpec.IWithLen.
+Definition JFrom := SDS.Spec.SeqSpec.IFrom.
+Definition JGet := SDS.Spec.SeqSpec.IGet.
+Definition JSet := SDS.Spec.SeqSpec.ISet.
+Definition JPush := SDS.Spec.SeqSpec.IPush.
+Definition JPop := SDS.Spec.SeqSpec.IPop.
+Definition JResize := SDS.Spec.SeqSpec.IResize.
+Definition JClear := SDS.Spec.SeqSpec.IClear.
+Definition JReserve := SDS.Spec.SeqSpec.IReserve.
+Definition JPack := SDS.Spec.SeqSpec.IPack.
+Definition JExtend := SDS.Spec.SeqSpec.IExtend.
+Definition JCount := SDS.Spec.SeqSpec.ICountOnes.
 
 Definition sp_of (path : N) : selpath := if path =? 0 then Pdep else Portable.
 Definition mode_of (dbg : bool) : mode := if dbg then Debug else Release.
@@ -337,6 +376,41 @@ Definition spec_mget (p : mprobe) : bool :=
   let '(off, len, width, gets) := p in
   (1 <=? width) && (width <=? 64) && forallb (fun g => not9 (snd g)) gets.
 
+(* ---- histories ---- *)
+
+(* model side: the raw vector a history ends in, when every call of it returns *)
+Definition hist_raw (ops : list SDS.Spec.SeqSpec.rop) : option raw :=
+  match SDS.Model.Hist.rrun raw_new ops with Ok (r, _) => Some r | _ => None end.
+Definition hist_int (w0 : N) (ops : list SDS.Spec.SeqSpec.iop) : option raw :=
+  match iv_new w0 with
+  | Some v0 => match SDS.Model.Hist.irun v0 ops with Ok (v, _) => Some (idata v) | _ => None end
+  | None => None
+  end.
+Definition same_raw (r : raw) (olen : N) (owords : list N) : bool := (rlen r =? olen) && nlist_eqb (rdata r) owords.
+
+(* spec side, on the observation alone: exactly ceil(olen / 64) words, every one a 64-bit value, and no bit of the last
+   word set at or beyond olen *)
+Definition spec_repr (olen : N) (owords : list N) : bool :=
+  (N.of_nat (length owords) =? (olen + 63) / 64)
+  && forallb (fun w => w <? 18446744073709551616) owords
+  && (if olen mod 64 =? 0 then true else N.shiftr (last owords 0) (olen mod 64) =? 0).
+
+Definition check_hist (path : N) (dbg : bool) (mr : option raw) (olen : N) (owords : list N) (calls : list bcall) : N :=
+  let m_ok := match mr with
+              | Some r => same_raw r olen owords && forallb (model_bcall (sp_of path) (mode_of dbg) (bv_from_raw r)) calls
+              | None => false
+              end in
+  code m_ok (spec_repr olen owords && forallb spec_bcall calls).
+
+(* history returned in the model; same length; same words; observation inside the invariant; then per call *)
+Definition explain_hist (path : N) (dbg : bool) (mr : option raw) (olen : N) (owords : list N) (calls : list bcall) : list bool :=
+  match mr with
+  | Some r =>
+      true :: (rlen r =? olen) :: nlist_eqb (rdata r) owords :: spec_repr olen owords
+      :: map (fun c => model_bcall (sp_of path) (mode_of dbg) (bv_from_raw r) c && spec_bcall c) calls
+  | None => false :: false :: false :: spec_repr olen owords :: map spec_bcall calls
+  end.
+
 Definition check (c : case) : N :=
   match c with
   | CBV path dbg sup len words calls =>
@@ -361,6 +435,8 @@ Definition check (c : case) : N :=
       code (res_agree unit_eqb (runit st) o && forallb (model_bcall sp m (bv_from_raw r')) calls)
            ((if len <=? i then match o with IPanic _ => true | IOk _ => false end else true)
             && not9 o && forallb spec_bcall calls)
+  | CHistR path dbg ops olen owords calls => check_hist path dbg (hist_raw ops) olen owords calls
+  | CHistI path dbg w0 ops olen owords calls => check_hist path dbg (hist_int w0 ops) olen owords calls
   | CMapped dbg file ty views =>
       code (forallb (model_mview (mode_of dbg) file ty) views) (forallb (spec_mview file ty) views)
   | CMGet dbg file opt probes =>
@@ -385,6 +461,8 @@ Definition explain (c : case) : list bool :=
       let st := raw_set_bit (mkraw len words) i v in
       let r' := match st with Ok r' => r' | _ => mkraw len words end in
       res_agree unit_eqb (runit st) o :: map (model_bcall (sp_of path) (mode_of dbg) (bv_from_raw r')) calls
+  | CHistR path dbg ops olen owords calls => explain_hist path dbg (hist_raw ops) olen owords calls
+  | CHistI path dbg w0 ops olen owords calls => explain_hist path dbg (hist_int w0 ops) olen owords calls
   | CMapped dbg file ty views =>
       map (fun o => model_mview (mode_of dbg) file ty o && spec_mview file ty o) views
   | CMGet dbg file opt probes =>
